@@ -10,7 +10,9 @@ ORACLE = ('exact integer arithmetic on mantissas shifted by their exponent bytes
           '2^-bias): X = mx << ex, Y = my << ey, R = mr << er; |R - (X +/- Y)| <= 2 << er for '
           '+/-; for * the exact product P = mx*my is compared at the result scale: '
           '|(mr << s) - P| < 1 << s with s = er - ex - ey + bias; for x / 2^k the quotient is exact')
-BOUNDS = {'operands': 'all pairs of bit patterns (single: 2^64 pairs, double: 2^128 pairs)',
+BOUNDS = {'operands': 'thorough: all pairs of bit patterns (single: 2^64 pairs, double: 2^128 pairs), '
+                      'split by exponent difference; quick: single precision only, + and - for the '
+                      'exponent differences listed in the case names (all mantissas, signs, exponents)',
           'division': 'zero divisor and divisors that are powers of two (all 255 exponents x both '
                       'signs) for every dividend; the general quotient bound needs loop-invariant '
                       'VCs for the restoring divider and is NOT claimed (see DESIGN.md)',
@@ -95,6 +97,13 @@ def body_addsub(h):
             h.require('overflow-justified', s_and(k <= D + 2 * G + 4, absS >= (maxm << kk)))
             return obs
         # result in the same units: mr << (er - es + G), needs er - es + G >= 0
+        # zero result only below the smallest positive number 2^(nb - bias):
+        # |S| * 2^(es - G) < 2^nb
+        z = nb + G - es
+        zz = ite(z < 0, 0, z)
+        if zr:          # forks: a zero result has no exponent to relate to
+            h.require('zero-only-below-smallest', s_or(S == 0, s_and(z >= 0, absS < (1 << zz))))
+            return obs
         # (on one path of the real code the normalisation shift is fixed, so q is usually a
         # single value: make it concrete to keep every shift in the query concrete)
         q = h.concretize(er - es + G, 400)
@@ -102,14 +111,8 @@ def body_addsub(h):
         R = ite(nr, -(mr << qq), mr << qq)
         err = R - S
         abserr = ite(err < 0, -err, err)
-        h.require('within-2-ulp', s_or(zr, s_and(q >= 0, q <= D + G + 3, abserr <= (2 << qq))))
-        # zero result only below the smallest positive number 2^(nb - bias):
-        # |S| * 2^(es - G) < 2^nb
-        z = nb + G - es
-        zz = ite(z < 0, 0, z)
-        h.require('zero-only-below-smallest', s_or(s_not(zr), S == 0,
-                                                   s_and(z >= 0, absS < (1 << zz))))
-        h.require('sign', s_or(zr, S == 0, s_iff(nr, S < 0)))
+        h.require('within-2-ulp', s_and(q >= 0, q <= D + G + 3, abserr <= (2 << qq)))
+        h.require('sign', s_or(S == 0, s_iff(nr, S < 0)))
         return obs
     # d > D: exact = L + tau, tau has the sign of the smaller operand, 0 < |tau| < 2^-8 ulp(L)
     tau_pos = s_not(ns)
@@ -248,14 +251,20 @@ def cases(tier):
             hi = lo if -4 <= lo <= 3 else min(lo + step - 1, D, -5 if lo < -4 else D)
             ranges.append((lo, hi))
             lo = hi + 1
+        if not thorough:
+            # quick: both far regimes and a spread of near exponent differences
+            keep = {(-255, -D - 1), (D + 1, 255), (D, D), (-D, -D + 3), (28, 31), (-4, -4), (-1, -1),
+                    (0, 0), (1, 1), (2, 2), (8, 11), (-12, -9), (24, 27)}
+            ranges = [r for r in ranges if r in keep]
         for op in ('add', 'sub'):
             for (lo, hi) in ranges:
                 cs.append(Case('%s-%s-d%+d..%+d' % (op, t, lo, hi), body_addsub,
                                params={'type': t, 'op': op, 'd': (lo, hi)},
                                timeout_s=3000, query_timeout_ms=300000))
     for t in ('s', 'd'):
-        cs.append(Case('mul-' + t, body_mul, params={'type': t}, abstract_products=True,
-                       timeout_s=3000, query_timeout_ms=300000))
+        if t == 's' or thorough:
+            cs.append(Case('mul-' + t, body_mul, params={'type': t}, abstract_products=True,
+                           timeout_s=3000, query_timeout_ms=300000))
         cs.append(Case('div0-' + t, body_div0, params={'type': t}))
     # x / 2^k for every exponent byte of the divisor, split for parallelism
     chunks = 16 if thorough else 8
